@@ -204,9 +204,16 @@ func vfH_read_e2e() {
 		return nil
 	})
 	rp := vfChoose(4) // 0 ReadMessage, 1 NextReader+Read(a), 2 abandon after k bytes, 3 Join
-	a := vfPick([]int{1, 3, 200})
+	a := 200
+	if rp == 1 || rp == 3 {
+		a = vfPick([]int{1, 3, 200})
+	}
 	if rp == 3 {
-		r := JoinMessages(rc, "\n")
+		term := "\n"
+		if a == 3 {
+			term = "" // no terminator: message ends are invisible to the joined reader's client
+		}
+		r := JoinMessages(rc, term)
 		var all []byte
 		buf := make([]byte, a)
 		for i := 0; ; i++ {
@@ -221,7 +228,7 @@ func vfH_read_e2e() {
 		var want []byte
 		for _, m := range g.msgs {
 			want = append(want, m.data...)
-			want = append(want, '\n')
+			want = append(want, term...)
 		}
 		vfAssert(len(all) == len(want), "c03-join-length")
 		vfAssert(vfAllEq(all, want), "c03-join-payload")
